@@ -70,6 +70,14 @@ Theorem C19_never_dense : forall e k, ok e = true -> rows e = cols e -> (2 * k <
 Proof. exact never_dense. Qed.
 Print Assumptions C19_never_dense.
 
+(* Kronecker products of rectangular dense factors: every allocation is bounded by the largest prefix size of the code's
+   left-to-right contraction, (rows of the factors already applied) x (columns of the remaining ones) x k -- a function
+   of the factor shapes and their order alone; for square factors it is n * k *)
+Theorem C19_kron_rect_bound : forall fs k, all_dense fs = true ->
+  forall a, In a (allocs (SKron fs) k) -> (a <= kmax 1 fs * k)%N.
+Proof. exact kron_rect_bound. Qed.
+Print Assumptions C19_kron_rect_bound.
+
 (* factor-wise linear-algebra rules: dense work happens per dense leaf, bounded by the factors' own storage *)
 Theorem C19_factorwise_bound : forall e a, In a (leafwise e) -> (a <= storage e)%N.
 Proof. exact factorwise_bound. Qed.
